@@ -19,6 +19,21 @@ PER_FILE_FLAGS = {
     "src/simd/x86/avx2_ops.c": ["-mavx2", "-mbmi2"],
     "src/simd/x86/avx512_ops.c": ["-mavx512f", "-mavx512bw", "-mavx512vl"],
 }
+
+
+def per_file_flags():
+    """The -m flags each x86 kernel file is compiled with, as the working tree's CMakeLists.txt says
+    (GCC-like branch); falls back to the table above if the pattern is not found."""
+    flags = dict(PER_FILE_FLAGS)
+    try:
+        txt = open(os.path.join(REPO, "CMakeLists.txt"), errors="replace").read()
+    except OSError:
+        return flags
+    for m in re.finditer(r'set_source_files_properties\(\s*(src/simd/x86/\w+\.c)\s+PROPERTIES\s+COMPILE_FLAGS\s+"((?:-m[\w.\-]+\s*)+)"\s*\)', txt):
+        flags[m.group(1)] = m.group(2).split()
+    return flags
+
+
 DEFS = ["-DCARQUET_ARCH_X86", "-DCARQUET_ENABLE_SSE", "-DCARQUET_ENABLE_AVX2", "-DCARQUET_ENABLE_AVX512",
         "-D" + GUARD]
 VARIANTS = {
@@ -79,9 +94,10 @@ def build_harness(variant="asan", log=None):
     base = ["gcc", "-std=gnu11", "-w"] + VARIANTS[variant] + DEFS + \
            [f"-I{REPO}/include", f"-I{REPO}/src", "-isystem", ZSTD_INC, f"-I{HARNESS}"]
     jobs = []
+    pff = per_file_flags()
     for s in repo_sources():
         o = os.path.join(d, s.replace("/", "_")[:-2] + ".o")
-        jobs.append((base + PER_FILE_FLAGS.get(s, []) + ["-c", os.path.join(REPO, s), "-o", o], o))
+        jobs.append((base + pff.get(s, []) + ["-c", os.path.join(REPO, s), "-o", o], o))
     comps = []
     for c in sorted(glob.glob(os.path.join(HARNESS, "*.c"))):
         o = os.path.join(d, "hx_" + os.path.basename(c)[:-2] + ".o")
